@@ -49,6 +49,15 @@ def method_names(w, cls_key):
     return names
 
 
+def _defines(cls_key, name):
+    """Does the class body in the CURRENT source define this method itself?"""
+    try:
+        node, _, _, _ = extract.find(cls_key)
+    except extract.ExtractError:
+        return False
+    return any(isinstance(s, ast.FunctionDef) and s.name == name for s in node.body)
+
+
 def register(w, c):
     key = c["key"]
     w.contracts[key] = c
@@ -226,8 +235,11 @@ def visitor_call(ex, obj, cc, name, args, kw, line, via_super, cls_override):
     if name == "visit" and len(args) == 1:
         return visit_one(ex, obj, cc, args[0], line)
     if name == "generic_visit" and len(args) == 1:
-        own = cc.get("overrides_generic_visit")
+        own = _defines(cc["key"], "generic_visit")
         if own and not via_super and cls_override is None:
+            k = f"{cc['key']}.generic_visit"
+            if k in w.contracts:
+                return apply_contract(ex, k, obj, args, kw, line)
             return NotImplemented
         return generic_visit(ex, obj, cc, args[0], line)
     if via_super or cls_override is not None:
@@ -257,8 +269,9 @@ def visit_one(ex, obj, cc, x, line):
             if ex.ctx.choose(2, [True, True]) == 1:
                 ex.assume(cz)
                 raise RaiseSig(exc, line)
-    if cc.get("base") == "NodeTransformer" and cc.get("heap_mutating", True) and isinstance(x, Z):
-        ex.frame_write(x, "self.visit(x) of a NodeTransformer (in-place generic_visit)", line)
+    if cc.get("base") == "NodeTransformer" and not cc.get("non_mutating") and isinstance(x, Z):
+        ex.frame_write(x, "self.visit(x) of a NodeTransformer (in-place generic_visit)", line,
+                       need_lists=True)
     if "visit_fn" in cc:
         sf = ex.w.specs[cc["visit_fn"]]
         extra = [eval_spec_expr(ex, a, env) for a in cc.get("visit_fn_args", [])]
@@ -319,7 +332,7 @@ def generic_visit(ex, obj, cc, x, line):
     if base == "NodeTransformer":
         if isinstance(x, Z):
             ex.frame_write(x, "NodeTransformer.generic_visit (stores visited children in place)",
-                           line)
+                           line, need_lists=True)
         if "visit_fn" in cc:
             sf = ex.w.specs[cc["visit_fn"]]
             extra = []
@@ -360,6 +373,7 @@ class FnResult:
         self.sha = None
         self.notes = []
         self.dropped = []
+        self.skipped = False
 
 
 def verify_function(w, key):
@@ -370,6 +384,9 @@ def verify_function(w, key):
     try:
         fnode, seg, sha, tree = extract.find(src_key)
     except extract.ExtractError as e:
+        if c.get("optional"):
+            res.skipped = True
+            return res
         res.unsupported = str(e)
         return res
     res.sha = sha
@@ -387,6 +404,8 @@ def verify_function(w, key):
         ctx = symex.Ctx(w, trace, worklist)
         ex = symex.Exec(w, key, fnode, c, tree)
         ex.ctx = ctx
+        import itertools
+        w._fresh = itertools.count()      # same symbol names on every replay: terms are shared
         try:
             run_one_path(ex, c, fnode, is_method, res)
         except Unsupported as u:
@@ -402,6 +421,8 @@ def verify_function(w, key):
     for ob in res.obligations:
         if "fuel" in c:
             ob.fuel = c["fuel"]
+        if "allclass" in c:
+            ob.allclass = c["allclass"]
     uniq = {}
     for ob in res.obligations:
         k = (ob.kind, ob.name, ob.line, tuple(x.get_id() for x in ob.pc), ob.goal.get_id())
@@ -433,6 +454,8 @@ def run_one_path(ex, c, fnode, is_method, res):
     bound.update({p: env[p] for p in c.get("ghost", {})})
     cenv = contract_env(ex, c, bound, self_obj, old_self)
     for r in c.get("requires", []):
+        ex.assume(ex.to_bool(eval_spec_expr(ex, r, cenv)))
+    for r in c.get("lemma_instances", []):
         ex.assume(ex.to_bool(eval_spec_expr(ex, r, cenv)))
     if not ex.feasible(z3.BoolVal(True)):
         raise symex.PathPruned()
